@@ -9,6 +9,49 @@ func init() {
 	vHarnesses["VerifC02Hunks"] = VerifC02Hunks
 	vHarnesses["VerifC02Color"] = VerifC02Color
 	vHarnesses["VerifC02Canary"] = VerifC02Canary
+	vHarnesses["VerifC02Big"] = VerifC02Big
+}
+
+// vBigStr: a string payload whose rendered line ('+ "..."', 4 bytes around the text) sits just
+// below, at and above the buffer sizes line readers commonly have (4 KiB, 64 KiB).
+func vBigStr() jsonString {
+	l := [...]int{4092, 65531, 65532}[vChoice(3)]
+	return jsonString(strings.Repeat("x", l))
+}
+
+// VerifC02Big: long lines. A diff whose removed / added / context values are long strings must
+// survive Render -> ReadDiffString like any other (line-length limits of the reader).
+func VerifC02Big() {
+	var a, b JsonNode
+	switch vChoice(2) {
+	case 0:
+		// object member replaced: '- "..."' and '+ "..."' lines, followed by a second hunk
+		a = jsonObject{"blob": vBigStr(), "rev": vNum()}
+		// (a number, not a string, on the other side: Render computes a quadratic character-level
+		// LCS when one string replaces another)
+		b = jsonObject{"blob": vNum(), "rev": vNum()}
+		if vChoice(2) == 1 {
+			a, b = b, a
+		}
+	default:
+		// list hunk between long context lines
+		var x, y JsonNode = vBigStr(), jsonString(vStrASCII(1))
+		if vChoice(2) == 1 {
+			x, y = y, x
+		}
+		a = jsonArray{x, vNum(), y, vNum()}
+		b = jsonArray{x, vNum(), y, vNum()}
+	}
+	d := a.Diff(b)
+	text := d.Render()
+	d2, err := ReadDiffString(text)
+	vAssert(err == nil, "ReadDiffString rejected a rendered diff with a long line")
+	vAssert(len(d2) == len(d), "re-read diff with a long line has a different number of hunks")
+	vAssert(d2.Render() == text, "re-rendering the re-read diff with a long line gives a different text")
+	p, err := vClone(a).Patch(d2)
+	vAssert(err == nil, "the re-read diff with a long line does not apply to a")
+	vAssert(p.Equals(b), "the re-read diff with a long line does not turn a into b")
+	vCover("c02.big")
 }
 
 // VerifC02Lib: diffs produced by the library survive Render -> ReadDiffString.
